@@ -799,6 +799,9 @@ class Interp(object):
             for x in c:
                 r = r or self.isinstance_value(v, x)
             return r
+        from .timemodel import _ClassLike
+        if isinstance(c, _ClassLike):
+            c = c.real                       # model object standing for a NumPy scalar class
         if isinstance(c, ClassVal):
             if isinstance(v, Obj):
                 return c in v._cls.mro
